@@ -274,9 +274,17 @@ def run(ctx):
                         ctx.distinct.add((t, tool, q, text, "nt"))
                 else:
                     want = prow
-                if sorted(rows) != sorted(want):
-                    miss = sorted(set(want) - set(rows))[:5]
-                    extra = sorted(set(rows) - set(want))[:5]
+                # Docker: an exception pattern naming an entry below an excluded directory.  The statement gives two
+                # readings (an ignored ancestor omits it / a later negated pattern re-includes it) and Docker itself
+                # re-includes; such rows are not judged either way (counted, see DESIGN.md 0.6)
+                unsure = set()
+                if active and tool == "docker":
+                    unsure = {p for p in prow if with_ancestors(ref, rel_of(p)) and not ref(rel_of(p))}
+                    if unsure:
+                        ctx.count("docker_exception_below_excluded_directory_rows", len(unsure))
+                if sorted(x for x in rows if x not in unsure) != sorted(x for x in want if x not in unsure):
+                    miss = sorted(set(want) - set(rows) - unsure)[:5]
+                    extra = sorted(set(rows) - set(want) - unsure)[:5]
                     ctx.oracle_fail("rows are not the plain rows minus exactly the entries the %s rules ignore" % tool, case,
                                     detail={"wrongly_omitted": miss, "wrongly_listed": extra})
                 ctx.sample({"argv": [q], "tool": tool, "ignore_file": text, "rows": len(rows), "plain_rows": len(prow)}, every=7)
